@@ -22,7 +22,6 @@ m("asm-fill-label-case", "C01 C03 C23", "src/asm.rs", "                         
 m("parse-brzp-brnz-swapped", "C03", "src/parse.rs", "            Ident::BRZP => Ok(Self::BR(0b011, parser.parse()?)),", "            Ident::BRZP => Ok(Self::BR(0b110, parser.parse()?)),")
 m("parse-colon-drops-label", "C03", "src/parse.rs", "                    parser.match_::<Colon>()?; // skip colon if it exists\n\n                    last_label_span.replace(span.clone());\n                    labels.push(label);", "                    let colon = parser.match_::<Colon>()?; // skip colon if it exists\n\n                    last_label_span.replace(span.clone());\n                    if colon.is_none() || labels.len() < 2 { labels.push(label); }")
 m("lex-hex-signed-as-unsigned", "C05", "src/parse/lex.rs", "    i16::from_str_radix(hex, 16)\n", "    i16::from_str_radix(hex, 16).or_else(|e| u16::from_str_radix(hex.trim_start_matches('-'), 16).map(|v| (v as i16).wrapping_neg()).map_err(|_| e))\n")
-m("parse-blkw-zero-allowed", "C05", "src/parse.rs", "                match block_size.get() != 0 {", "                match block_size.get() != 0 || span.start == 0 {")
 # ---- decode / disassemble
 m("decode-add-bit4-unchecked", "C06 C07", "src/ast/sim.rs", "            OP_ADD => {\n                let dr  = word.slice(9..12).interpret();\n                let sr1 = word.slice(6..9).interpret();\n                let sr2 = match word.slice(5..6) != 0 {\n                    false => {\n                        word.slice(3..5).assert_equals(0b00)?;", "            OP_ADD => {\n                let dr  = word.slice(9..12).interpret();\n                let sr1 = word.slice(6..9).interpret();\n                let sr2 = match word.slice(5..6) != 0 {\n                    false => {\n                        word.slice(3..4).assert_equals(0b0)?;")
 m("disasm-x0200-boundary", "C07", "src/ast/asm.rs", "    let si = match word >= 0x0200 {", "    let si = match word > 0x0200 {")
@@ -60,8 +59,8 @@ m("text-linker-info-dropped", "C18", "src/asm/encoding.rs", "                   
 m("text-hex2u16-slices", "C19", "src/asm/encoding.rs", "    match s.len() == 4 {\n        true => u16::from_str_radix(s, 16).ok(),\n        false => None\n    }", "    match s.len() >= 4 {\n        true => u16::from_str_radix(&s[..4], 16).ok(),\n        false => None\n    }")
 m("bin-take-slice-no-guard", "C19", "src/asm/encoding.rs", "    if n > data.len() { return None; }", "    if n > data.len() + 1 { return None; }")
 # ---- linking
-m("link-keep-external-flag", "C20 C21", "src/asm.rs", "                                    e.insert(linked_sym);\n", "                                    if a_sym_data.external { e.insert(linked_sym); }\n")
-m("link-overlap-equal-origin-only", "C20", "src/asm.rs", "            ranges_overlap(ar, br)\n        }) {", "            ranges_overlap(ar, br) && a_bl.len() > 1\n        }) {")
+m("link-keep-external-flag", "C20 C21", "src/asm.rs", "                                    e.insert(linked_sym);\n", "                                    if !a_sym_data.external { e.insert(linked_sym); }\n")
+m("link-overlap-short-second-block", "C20", "src/asm.rs", "            ranges_overlap(ar, br)\n        }) {", "            ranges_overlap(ar, br) && b_bl.len() > 1\n        }) {")
 m("load-external-flag-ignored", "C21", "src/asm.rs", "            .and_then(|s| s.label_map.iter().find(|(_, s)| s.external))", "            .and_then(|s| s.label_map.iter().find(|(k, s)| s.external && s.rel_map_has(k)))")
 m("link-line-offset-minus-one", "C22", "src/asm.rs", "                .map(|(k, v)| (k.saturating_add(lines), v))", "                .map(|(k, v)| (k.saturating_add(lines - 1), v))")
 m("rev-lookup-any-label", "C23", "src/asm.rs", "            .find(|&(_, sym_data)| sym_data.addr == addr)?;", "            .find(|&(_, sym_data)| sym_data.addr >= addr)?;")
@@ -95,7 +94,7 @@ SPECIAL = {
   # needs two edits
   "sim-interrupt-priority-ge-both": [("src/sim.rs", "device::InterruptKind::Vectored { vect, priority } if priority > self.psr().priority() => {", "device::InterruptKind::Vectored { vect, priority } if priority >= self.psr().priority() => {"),
                                       ("src/sim.rs", "        if priority.is_some_and(|prio| prio <= self.psr.priority()) { return Ok(()) };", "        if priority.is_some_and(|prio| prio < self.psr.priority()) { return Ok(()) };")],
-  "load-external-flag-ignored": [("src/asm.rs", "            .and_then(|s| s.label_map.iter().find(|(_, s)| s.external))", "            .and_then(|s| s.label_map.iter().find(|(k, d)| d.external && s.rel_map.values().any(|v| v == *k)))")],
+  "load-external-flag-ignored": [("src/asm.rs", "            .and_then(|s| s.label_map.iter().find(|(_, s)| s.external))", "            .and_then(|s| s.label_map.iter().find(|(_, s)| s.external && s.addr != 0))")],
   "known-init-skips-registers": [("src/sim.rs", "            reg_file: RegFile::new(&mut filler),", "            reg_file: RegFile::new(&mut ())  ,")],
 }
 
